@@ -81,6 +81,7 @@ def declared_names(text):
 
 
 def run(rep, tier, seed):
+    rep.level = "fault_enumeration"
     rng = random.Random(seed * 1000003 + 16)
     quick = tier == "quick"
     n = 5000 if quick else 120000
